@@ -684,3 +684,106 @@ func VerifC01Flapping(v *vrt.T) {
 	}
 	v.Reach("end")
 }
+
+// ---------------------------------------------------------------------------------
+// H4: real compiled lambdas (the documented reset example)
+// ---------------------------------------------------------------------------------
+
+// The example of pipeline/alert.go: info > 60 reset < 50, warn > 70 reset < 60,
+// crit > 80 reset < 70.
+var verifC01DocLambdas = [4][2]string{{}, {`"value" > 60`, `"value" < 50`}, {`"value" > 70`, `"value" < 60`}, {`"value" > 80`, `"value" < 70`}}
+
+// verifC01UseLambdas replaces the stub expressions of an all-levels-with-resets node by
+// expressions compiled from the documented lambdas, the way newAlertNode does it.
+func verifC01UseLambdas(v *vrt.T, an *AlertNode) {
+	for l := alert.Info; l <= alert.Critical; l++ {
+		for r := 0; r < 2; r++ {
+			ln, err := ast.ParseLambda(verifC01DocLambdas[l][r])
+			v.Assert(err == nil, "lambda parses")
+			se, err := stateful.NewExpression(ln.Expression)
+			v.Assert(err == nil, "lambda compiles")
+			pool := stateful.NewScopePool(ast.FindReferenceVariables(ln.Expression))
+			if r == 0 {
+				an.levels[l], an.scopePools[l] = se, pool
+			} else {
+				an.levelResets[l], an.lrScopePools[l] = se, pool
+			}
+		}
+	}
+}
+
+// VerifC01Lambdas: the stream state machine with the real expression evaluator on the
+// documented threshold lambdas and a symbolic numeric field "value" per point.
+// mode 0: k arbitrary values (any float64 incl. NaN/Inf, or int64 in 40..90).
+// mode 1: the documented worked example 61 73 64 85 62 56 47, each value moved by an
+// arbitrary amount in [-0.5, 0.5]: INFO WARNING WARNING CRITICAL INFO INFO OK.
+func VerifC01Lambdas(v *vrt.T) {
+	cfg := verifC01Variants[0]
+	for l := alert.Info; l <= alert.Critical; l++ {
+		cfg.level[l], cfg.reset[l] = true, true
+	}
+	mode := v.Choose("mode", 2)
+	k := v.Bound("points", 3)
+	doc := []float64{61, 73, 64, 85, 62, 56, 47}
+	docLevels := []alert.Level{alert.Info, alert.Warning, alert.Warning, alert.Critical, alert.Info, alert.Info, alert.OK}
+	asInt := false
+	if mode == 0 {
+		asInt = v.Choose("int", 2) == 1
+		if v.Choose("stateChangesOnly", 2) == 1 {
+			cfg.sco = true
+			cfg.ival = time.Duration(v.IntRange("interval", 0, 48))
+		}
+		cfg.noRec = v.Bool("noRecoveries")
+	} else {
+		k = len(doc)
+	}
+	svc := &verifC01AlertSvc{}
+	diag := &verifNopDiag{}
+	an := verifC01Node(cfg, svc, diag)
+	verifC01UseLambdas(v, an)
+	dims, tags := verifC01Group()
+	state := an.newAlertState(tags)
+	ref := &verifC01Ref{cfg: cfg}
+
+	t := v.Time("t0", verifT2020-32, verifT2020+32).UnixNano()
+	for i := 0; i < k; i++ {
+		if i > 0 {
+			t += int64(v.IntRange("dt", 0, 40))
+		}
+		var cond, reset [4]bool
+		fields := models.Fields{}
+		if asInt {
+			x := int64(v.IntRange("ivalue", 40, 90))
+			fields["value"] = x
+			cond = [4]bool{false, x > 60, x > 70, x > 80}
+			reset = [4]bool{false, x < 50, x < 60, x < 70}
+		} else {
+			x := v.Float64("value")
+			if mode == 1 {
+				v.Assume(x >= doc[i]-0.5)
+				v.Assume(x <= doc[i]+0.5)
+			}
+			fields["value"] = x
+			cond = [4]bool{false, x > 60, x > 70, x > 80}
+			reset = [4]bool{false, x < 50, x < 60, x < 70}
+		}
+		p := edge.NewPointMessage("m", "db", "rp", dims, fields, tags, time.Unix(0, t).UTC())
+		before := len(svc.events)
+		msg, err := state.Point(p)
+		v.Assert(err == nil, "no error")
+		wantLevel := ref.newLevel(cond, reset)
+		if mode == 1 {
+			v.Assert(wantLevel == docLevels[i], "reference reproduces the documented example")
+		}
+		v.Assert(state.currentLevel() == wantLevel, "level of the point is the documented one")
+		emit, dur := ref.step(wantLevel, t)
+		v.Observe("step", msg != nil, int(state.currentLevel()), len(svc.events)-before)
+		verifC01CheckEvents(v, cfg, svc, before, emit, wantLevel, t, dur)
+		v.Assert((msg != nil) == emit, "point forwarded downstream iff an event was sent")
+	}
+	v.Assert(diag.errors == 0, "no evaluation errors logged")
+	if mode == 1 {
+		v.Reach("documented example")
+	}
+	v.Reach("end")
+}
